@@ -183,6 +183,12 @@ Proof.
   rewrite (H t) by apply elem_of_list_here. rewrite IH; [done|]. intros t' Ht'. apply H. by apply elem_of_list_further.
 Qed.
 
+Lemma rpending_rop_threads c oss : rpending c (map rop_thread oss) = 0.
+Proof.
+  induction oss as [|os oss IH]; [done|]. rewrite map_cons, rpending_cons, IH. unfold rop_thread. cbn [todo].
+  induction os as [|o os IHo]; [done|]. rewrite map_cons, tpending_cons. cbn [rt_pending]. lia.
+Qed.
+
 (* ---- the invariant of every run of announce-type threads *)
 Definition started_of (e : option (nat * rrt * rshared)) : list rop :=
   match e with Some (_, RtOp o, _) => [o] | _ => [] end.
@@ -275,7 +281,194 @@ Proof.
   destruct (rinv_run m0 Hann sched) as [_ H1 H2]. split; [exact H1|].
   intros c. specialize (H2 c). fold final in H2. cbn [fst snd m0] in H2. fold m0 seq in H2.
   rewrite (rpending_finished c final.2) in H2 by exact Hc.
-  rewrite (rpending_finished c (map rop_thread oss)) in H2; [lia|].
-  intros t Ht. apply elem_of_list_fmap in Ht as [os [-> _]]. unfold rop_thread. cbn [todo].
-  exfalso. clear -Hc. done.
+  rewrite rpending_rop_threads in H2. lia.
+Qed.
+
+(* the totals exported at quiescence are exact: the concurrent run ends in the
+   keyspace (hashes and counters) of a sequential history, to which
+   [redis_totals_exact] applies *)
+Definition rops_sops (os : list rop) : list sop := flat_map rop_sops os.
+
+Lemma srun_app {S} (I : store_if S) init ops1 ops2 :
+  srun I init (ops1 ++ ops2) = fold_left (sapply I) ops2 (srun I init ops1).
+Proof. unfold srun. apply fold_left_app. Qed.
+
+Lemma red_apply_sops o st clock :
+  (fold_left (sapply red_if) (rop_sops o) (st, clock)).1 = red_apply o st.
+Proof. by destruct o. Qed.
+
+Lemma red_apply_all_sops os h0 :
+  run_redis (h0 ++ rops_sops os) = red_apply_all os (run_redis h0).
+Proof.
+  unfold run_redis. rewrite srun_app. generalize (srun red_if redis_init h0). intros x.
+  revert x. induction os as [|o os IH]; intros [st clock]; [done|].
+  unfold rops_sops. cbn [flat_map]. rewrite fold_left_app. fold (rops_sops os).
+  destruct (fold_left (sapply red_if) (rop_sops o) (st, clock)) as [st1 clock1] eqn:E.
+  rewrite IH. cbn [red_apply_all fold_left fst]. f_equal.
+  pose proof (red_apply_sops o st clock) as H. rewrite E in H. done.
+Qed.
+
+Lemma rops_sops_wf os : Forall rop_wf os → Forall sop_wf (rops_sops os).
+Proof.
+  intros H. unfold rops_sops. apply Forall_flat_map. eapply Forall_impl; [exact H|].
+  intros o Ho. destruct o; cbn [rop_sops]; repeat apply Forall_cons_2; try apply Forall_nil_2; done.
+Qed.
+
+Lemma red_prom_ext st1 st2 : hs st1 = hs st2 → (∀ c, r_get c st1 = r_get c st2) →
+  red_prom st1 = red_prom st2 ∧ red_registered st1 = red_registered st2.
+Proof.
+  intros Hh Hc. split.
+  - unfold red_prom. by rewrite !Hc.
+  - unfold red_registered, reg_count, r_hash. by rewrite Hh.
+Qed.
+
+(* ---- the order of first round-trips is an interleaving of the threads' programs *)
+Definition ops_of (l : list rrt) : list rop := omap (λ a, match a with RtOp o => Some o | _ => None end) l.
+Definition rremaining (ts : list rthread) : list rop := flat_map (λ t, ops_of (todo t)) ts.
+(* the operations thread j started, in order *)
+Definition rstarted_by (j : nat) (sched : list nat) (m : rshared * list rthread) : list rop :=
+  omap (λ e : nat * rrt * rshared,
+          match e.1.2 with RtOp o => if decide (e.1.1 = j) then Some o else None | _ => None end) (rtrace sched m).
+Definition started_by_of (j : nat) (e : option (nat * rrt * rshared)) : list rop :=
+  match e with Some (i, RtOp o, _) => if decide (i = j) then [o] else [] | _ => [] end.
+
+Lemma rstarted_by_snoc j s i m :
+  rstarted_by j (s ++ [i]) m = rstarted_by j s m ++ started_by_of j (mstep rsem i (rrun s m)).2.
+Proof.
+  unfold rstarted_by, rtrace, rrun. rewrite trace_snoc, omap_app. f_equal.
+  destruct (mstep rsem i (run rsem s m)).2 as [[[i' a] sh]|]; [|done]. destruct a; try done.
+  cbn. by destruct (decide (i' = j)).
+Qed.
+
+Lemma ops_of_app l1 l2 : ops_of (l1 ++ l2) = ops_of l1 ++ ops_of l2.
+Proof. apply omap_app. Qed.
+Lemma ops_of_incrs l : ops_of (map (λ cd : list Z * Z, RtIncr cd.1 cd.2) l) = [].
+Proof. by induction l. Qed.
+Lemma ops_of_ops os : ops_of (map RtOp os) = os.
+Proof. induction os as [|o os IH]; [done|]. cbn. by rewrite IH. Qed.
+
+Lemma rremaining_insert (ts : list rthread) i t t' pre : ts !! i = Some t →
+  ops_of (todo t) = pre ++ ops_of (todo t') → rremaining ts ≡ₚ pre ++ rremaining (<[i := t']> ts).
+Proof.
+  revert i. induction ts as [|t0 ts IH]; intros i Hi Hpre; [done|].
+  destruct i as [|i]; cbn in Hi.
+  - injection Hi as ->. change (<[0%nat := t']> (t :: ts)) with (t' :: ts).
+    unfold rremaining. cbn [flat_map]. rewrite Hpre. by rewrite app_assoc.
+  - change (<[S i := t']> (t0 :: ts)) with (t0 :: <[i := t']> ts).
+    unfold rremaining. cbn [flat_map]. fold (rremaining ts) (rremaining (<[i := t']> ts)).
+    rewrite (IH i Hi Hpre). rewrite !app_assoc. apply Permutation_app_tail, Permutation_app_comm.
+Qed.
+
+(* what one choice does to the operations of the thread it picks *)
+Lemma ann_step_ops m i : Forall rthread_announce m.2 →
+  (mstep rsem i m = (m, None)) ∨
+  (∃ t t', m.2 !! i = Some t ∧ (mstep rsem i m).1.2 = <[i := t']> m.2 ∧
+           ops_of (todo t) = started_of (mstep rsem i m).2 ++ ops_of (todo t') ∧
+           started_by_of i (mstep rsem i m).2 = started_of (mstep rsem i m).2 ∧
+           ∀ j, j ≠ i → started_by_of j (mstep rsem i m).2 = []).
+Proof.
+  intros Hann.
+  destruct (mstep_cases rsem i m) as [->|(t & a & rest & sh' & lo' & more & Ht & Htd & Hsem & ->)]; [by left|].
+  right. exists t, (Thread (more ++ rest) lo'). cbn [fst snd]. split; [done|]. split; [done|].
+  assert (Forall rt_announce (a :: rest)) as Hta.
+  { rewrite <-Htd. eapply (Forall_lookup_1 _ _ _ _ Hann Ht). }
+  apply Forall_cons in Hta as [Ha Hrest]. rewrite Htd. cbn [todo].
+  destruct a; try done; cbn [rsem] in Hsem.
+  - destruct (rop_first o (rst m.1)) as [st' rs] eqn:E. injection Hsem as <- <- <-.
+    cbn [started_of started_by_of]. rewrite ops_of_app, ops_of_incrs. rewrite decide_True by done.
+    split; [done|]. split; [done|]. intros j Hj. by rewrite decide_False.
+  - injection Hsem as <- <- <-. done.
+Qed.
+
+Lemma rstarted_perm m0 : Forall rthread_announce m0.2 →
+  ∀ sched, rstarted sched m0 ++ rremaining (rrun sched m0).2 ≡ₚ rremaining m0.2.
+Proof.
+  intros Hann sched. induction sched as [|i sched IH] using rev_ind; [done|].
+  pose proof (rinv_ann _ _ _ (rinv_run m0 Hann sched)) as Hann'.
+  rewrite rstarted_snoc. unfold rrun at 2. rewrite run_snoc. fold (rrun sched m0).
+  destruct (ann_step_ops (rrun sched m0) i Hann') as [->|(t & t' & Ht & -> & Hops & _)].
+  - cbn [started_of snd fst]. by rewrite app_nil_r.
+  - rewrite <-IH. rewrite <-app_assoc. apply Permutation_app_head. symmetry.
+    by apply (rremaining_insert _ _ t).
+Qed.
+
+Lemma rstarted_by_prefix m0 : Forall rthread_announce m0.2 →
+  ∀ sched j t0 t, m0.2 !! j = Some t0 → (rrun sched m0).2 !! j = Some t →
+  rstarted_by j sched m0 ++ ops_of (todo t) = ops_of (todo t0).
+Proof.
+  intros Hann sched. induction sched as [|i sched IH] using rev_ind; intros j t0 t H0 Ht.
+  - cbn in Ht. rewrite H0 in Ht. by injection Ht as ->.
+  - pose proof (rinv_ann _ _ _ (rinv_run m0 Hann sched)) as Hann'.
+    rewrite rstarted_by_snoc. unfold rrun in Ht. rewrite run_snoc in Ht. fold (rrun sched m0) in Ht.
+    destruct (ann_step_ops (rrun sched m0) i Hann') as [E|(t1 & t' & Ht1 & E & Hops & Hi & Hj)].
+    + rewrite E in Ht |- *. cbn [fst snd started_by_of] in *. rewrite app_nil_r. by apply IH.
+    + rewrite E in Ht. destruct (decide (j = i)) as [->|Hne].
+      * rewrite list_lookup_insert in Ht by (by eapply lookup_lt_Some). injection Ht as <-.
+        rewrite Hi, <-app_assoc, <-Hops. by apply IH.
+      * rewrite list_lookup_insert_ne in Ht by done. rewrite (Hj j Hne), app_nil_r. by apply IH.
+Qed.
+
+Lemma rop_threads_announce oss : Forall rthread_announce (map rop_thread oss).
+Proof.
+  apply Forall_forall. intros t Ht. apply elem_of_list_fmap in Ht as [os [-> _]].
+  apply Forall_forall. intros a Ha. apply elem_of_list_fmap in Ha as [o [-> _]]. done.
+Qed.
+Lemma rremaining_rop_threads oss : rremaining (map rop_thread oss) = concat oss.
+Proof.
+  induction oss as [|os oss IH]; [done|]. unfold rremaining. cbn [map flat_map concat todo rop_thread].
+  rewrite ops_of_ops. f_equal. exact IH.
+Qed.
+Lemma rremaining_finished (ts : list rthread) : (∀ t, t ∈ ts → todo t = []) → rremaining ts = [].
+Proof.
+  induction ts as [|t ts IH]; intros H; [done|]. unfold rremaining. cbn [flat_map].
+  rewrite (H t) by apply elem_of_list_here. cbn. apply IH. intros t' Ht'. apply H. by apply elem_of_list_further.
+Qed.
+Lemma run_length {A Sh Lo} (sem : A → Sh → Lo → option (Sh * Lo * list A)) sched m :
+  length (run sem sched m).2 = length m.2.
+Proof.
+  revert m. induction sched as [|i sched IH]; intros m; [done|]. cbn [run]. rewrite IH.
+  destruct (mstep_cases sem i m) as [->|(t & a & rest & sh' & lo' & more & Ht & Htd & Hsem & ->)]; [done|].
+  cbn [fst snd]. apply insert_length.
+Qed.
+
+(* the order of first round-trips is a sequential ordering of all the
+   operations: a permutation of them that keeps every thread's program order *)
+Theorem redis_first_roundtrip_order : ∀ (oss : list (list rop)) sh sched,
+  let m0 := (sh, map rop_thread oss) in
+  complete rsem sched m0 →
+  rstarted sched m0 ≡ₚ concat oss ∧ ∀ j os, oss !! j = Some os → rstarted_by j sched m0 = os.
+Proof.
+  intros oss sh sched m0 Hc. pose proof (rop_threads_announce oss) as Hann. split.
+  - pose proof (rstarted_perm m0 Hann sched) as H. rewrite rremaining_finished in H by exact Hc.
+    rewrite app_nil_r in H. cbn [m0 snd] in H. by rewrite rremaining_rop_threads in H.
+  - intros j os Hj.
+    assert (m0.2 !! j = Some (rop_thread os)) as H0 by (cbn; by rewrite list_lookup_fmap, Hj).
+    destruct ((rrun sched m0).2 !! j) as [t|] eqn:Ht.
+    + pose proof (rstarted_by_prefix m0 Hann sched j _ t H0 Ht) as H.
+      rewrite (Hc t) in H by (by eapply elem_of_list_lookup_2). cbn [ops_of omap] in H.
+      rewrite app_nil_r in H. rewrite H. unfold rop_thread. cbn [todo]. apply ops_of_ops.
+    + exfalso. apply lookup_ge_None in Ht. apply lookup_lt_Some in H0.
+      unfold rrun in Ht. rewrite run_length in Ht. lia.
+Qed.
+
+Theorem redis_quiescent_totals_exact : ∀ (h0 : list sop) (oss : list (list rop)) sched,
+  Forall sop_wf h0 → Forall (Forall rop_wf) oss →
+  let m0 := (rshared_of (run_redis h0), map rop_thread oss) in
+  complete rsem sched m0 →
+  let final := rst (rrun sched m0).1 in
+  let h := h0 ++ rops_sops (rstarted sched m0) in
+  (∀ k, r_hash k final = r_hash k (run_redis h)) ∧
+  red_prom final = (red_registered final, sm_total_seeders (run_spec h), sm_total_leechers (run_spec h)).
+Proof.
+  intros h0 oss sched Hh0 Hoss m0 Hc final h.
+  destruct (redis_quiescent_equiv_sequential oss _ sched Hc) as [Hhs Hcs].
+  destruct (redis_first_roundtrip_order oss _ sched Hc) as [Hperm _].
+  fold m0 in Hhs, Hcs, Hperm. cbn [rshared_of rst] in Hhs, Hcs. fold final in Hhs, Hcs.
+  assert (Forall sop_wf h) as Hwf.
+  { apply Forall_app. split; [done|]. apply rops_sops_wf. rewrite Hperm.
+    apply Forall_concat. exact Hoss. }
+  rewrite <-red_apply_all_sops in Hhs, Hcs. fold h in Hhs, Hcs.
+  destruct (red_prom_ext _ _ Hhs Hcs) as [Hp Hr]. split.
+  - intros k. unfold r_hash. by rewrite Hhs.
+  - rewrite Hp, Hr. by apply redis_totals_exact.
 Qed.
